@@ -39,6 +39,12 @@ inductive Beh where
   | invalid              -- a single INVALID entry
   deriving DecidableEq, Repr
 
+/-- the peer delivers at least one of the requested headers it holds -/
+def Beh.progressing : Beh → Bool
+  | .full => true
+  | .atMost k => decide (1 ≤ k)
+  | _ => false
+
 structure Net where
   /-- the peers hold heights `1..=chainLen` -/
   chainLen : Nat
